@@ -1,5 +1,6 @@
 import KM.Lemmas.Session
 import KM.Gen.C05
+import KM.Model.SessionCert
 /-! # C05 — a session gains a factor only when its own user proves that factor
 
 Property theorems only. `step fixed` mirrors the repaired handlers of cmd/keymasterd, `events` is the
@@ -1029,3 +1030,139 @@ example : (outs fixed (init 1000 false (fun _ => ⟨false, false, false, 3⟩))
     = [(200, [⟨0, 2⟩]), (1, []), (500, []), (1, []), (200, [⟨0, 258⟩]), (412, [])] := by decide
 
 end KM.Session
+
+/-! ### requests authenticated by a TLS client certificate (`KM.SessionCert`)
+
+Found in round 5 of the seeded changes (an observation of the sub-agent working on C01, confirmed on the
+real handlers): `checkAuth(…, AuthTypeAny)` prefers a client certificate, `updateAuthCookieAuthlevel`
+re-signed whatever auth cookie came along.  Repaired in /repo (`fix: a second factor only raises the auth
+cookie of the user who proved it`); `bind = true` is the repaired helper, `bind = false` the code as found. -/
+namespace KM.SessionCert
+open KM.Session KM.Gen
+
+theorem inv_withCert {s : State} (hs : Inv s) (A : User) : Inv (withCert s A) := by
+  refine ⟨?_, hs.pushSvc, ?_, hs.svcBound, ?_, hs.bootWorld⟩
+  · intro c hc
+    simp only [withCert, List.mem_cons] at hc ⊢
+    rcases hc with rfl | hc
+    · have h9 : authTypeKeymasterX509 = 2 ^ 9 := by decide
+      show LevelOK ((A, Factor.x509) :: s.log) A authTypeKeymasterX509
+      rw [h9]
+      exact levelOK_pow (f := Factor.x509) rfl (List.mem_cons_self ..)
+    · exact levelOK_mono (hs.cookies c hc) (fun x hx => List.mem_cons_of_mem _ hx)
+  · intro k u h; exact List.mem_cons_of_mem _ (hs.svcLog k u h)
+  · intro u h; exact List.mem_cons_of_mem _ (hs.oktaLog u h)
+
+theorem reqCookie_setCookies {op : Op} {cs : Cookies} (h : anyMaskCookies op = some cs) (pc : Cookie) :
+    reqCookie (setCookies [some pc] op) = some pc ∧ ∀ u, setCookies [some pc] op ≠ .login u true := by
+  cases op <;> simp [anyMaskCookies] at h <;> simp [setCookies, reqCookie, reqCookies, caller]
+
+/-- what the handler hands out for a certificate identity is for the certificate's user -/
+theorem inner_sub {s : State} {A : User} {op : Op} {cs : Cookies} (h : anyMaskCookies op = some cs)
+    {c : Cookie} (hc : c ∈ (inner fixed s A op).2.cookies) : c.sub = A := by
+  have := c05_subject_stable (withCert s A) (setCookies [some (pseudo A)] op) c hc
+  obtain ⟨hr, hl⟩ := reqCookie_setCookies h (pseudo A)
+  rcases this with ⟨u, hu, _⟩ | ⟨ck, hck, _, hsub⟩
+  · exact absurd hu (hl u)
+  · rw [hr] at hck; cases hck; exact hsub
+
+theorem handed_sub {s : State} {A : User} {op : Op} {cs : Cookies} (h : anyMaskCookies op = some cs)
+    {c : Cookie} (hc : c ∈ handed true fixed s A op cs) : c ∈ (inner fixed s A op).2.cookies := by
+  unfold handed retarget at hc
+  split at hc
+  · cases hc
+  · rename_i t ht
+    split at hc
+    · cases hc
+    · rename_i hne
+      have hts : t.sub = A := by
+        by_cases e : t.sub = A
+        · exact e
+        · exact absurd ⟨rfl, e⟩ hne
+      simp only [List.mem_map] at hc
+      obtain ⟨c0, hc0, rfl⟩ := hc
+      have := inner_sub h hc0
+      have e : (⟨t.sub, c0.level⟩ : Cookie) = c0 := by rw [hts, ← this]
+      rw [e]; exact hc0
+
+/-- **Invariant, certificate requests included** (one step): with the repair, a request authenticated by a
+client certificate preserves "every issued cookie carries only factor bits verified for its own subject" -/
+theorem c05_cert_step_inv {s : State} (hs : Inv s) (A : User) (op : Op) : Inv (stepCert true fixed s A op).1 := by
+  unfold stepCert
+  split
+  · exact step_inv hs op
+  · rename_i cs h
+    have hi : Inv (inner fixed s A op).1 := step_inv (inv_withCert hs A) _
+    refine ⟨?_, hi.pushSvc, hi.svcLog, hi.svcBound, hi.oktaLog, hi.bootWorld⟩
+    intro c hc
+    simp only [List.mem_append] at hc
+    have hck : (inner fixed s A op).1.cookies =
+        (inner fixed s A op).2.cookies ++ (withCert s A).cookies := by
+      unfold inner step
+      simp only [(handle_ghost fixed (withCert s A) _).2]
+    apply hi.cookies c
+    rw [hck]
+    rcases hc with hc | hc
+    · exact List.mem_append_left _ (handed_sub h hc)
+    · exact List.mem_append_right _ (List.mem_cons_of_mem _ hc)
+
+theorem runR_inv {s : State} (hs : Inv s) (rs : List Req) : Inv (runR true fixed s rs) := by
+  induction rs generalizing s with
+  | nil => exact hs
+  | cons r rest ih =>
+    apply ih
+    cases r with
+    | plain op => exact step_inv hs op
+    | cert A op => exact c05_cert_step_inv hs A op
+
+/-- **Invariant over every history of plain and certificate-bearing requests**, from any initial
+configuration: every cookie ever issued carries only factor bits that were verified *for its own subject*
+(the X509 bit: its subject presented a verified keymaster client certificate). -/
+theorem c05_cert_inv (t0 : Nat) (okta : Bool) (cfg : User → UserCfg) (rs : List Req) :
+    ∀ c ∈ (runR true fixed (init t0 okta cfg) rs).cookies,
+      LevelOK (runR true fixed (init t0 okta cfg) rs).log c.sub c.level :=
+  (runR_inv (init_inv t0 okta cfg) rs).cookies
+
+/-- **Own user**: a second-factor step authenticated by `A`'s client certificate only ever hands out a
+cookie whose subject is `A` — whatever cookies of whomever the request carried -/
+theorem c05_cert_own_user (s : State) (A : User) (op : Op) (cs : Cookies) (h : anyMaskCookies op = some cs)
+    (c : Cookie) (hc : c ∈ (stepCert true fixed s A op).2.cookies) : c.sub = A := by
+  unfold stepCert at hc
+  rw [h] at hc
+  exact inner_sub h (handed_sub h hc)
+
+/-- a certificate changes nothing at the endpoints whose mask has no certificate bit -/
+theorem c05_cert_ignored (bind : Bool) (v : Variant) (s : State) (A : User) (op : Op)
+    (h : anyMaskCookies op = none) : stepCert bind v s A op = step v s op := by
+  unfold stepCert; rw [h]
+
+/-- bob (1) holds a client certificate and his own TOTP device; alice (0) has only logged in with her
+password.  The request carries bob's certificate, alice's cookie and bob's current code. -/
+def histCert : List Req :=
+  [.plain (.login 0 true), .plain (.login 1 true), .cert 1 (.totp [some ⟨0, 2⟩] (some (1, 1000)))]
+
+def outsR (bind : Bool) (s : State) : List Req → List Out
+  | [] => []
+  | r :: rest => (stepR bind fixed s r).2 :: outsR bind (stepR bind fixed s r).1 rest
+
+/-- as found (`bind = false`): alice's cookie comes back with level X509|TOTP = 576 although no TOTP code
+of alice's and no certificate of alice's occurs anywhere in the history; repaired: 500 and no cookie -/
+theorem c05_cert_unfixed_counterexample :
+    (outsR false (init 1000 false cfgAll) histCert).getLast? = some ⟨200, [⟨0, 576⟩], [(1, Factor.totp)]⟩ ∧
+    levelOKb (runR false fixed (init 1000 false cfgAll) histCert).log 0 576 = false ∧
+    (outsR true (init 1000 false cfgAll) histCert).getLast? = some ⟨500, [], [(1, Factor.totp)]⟩ := by
+  decide
+
+/-- non-vacuity: with his own cookie attached bob's certificate request IS served -/
+example : ((stepR true fixed (runR true fixed (init 1000 false cfgAll) [.plain (.login 1 true)])
+    (.cert 1 (.totp [some ⟨1, 2⟩] (some (1, 1000))))).2.cookies) = [⟨1, 576⟩] := by decide
+
+/-- **Sites** (regenerated): every upgrade site names the user `checkAuth` (or the TOTP wrapper around it)
+authenticated, and the re-signing helper refuses a cookie whose subject is anybody else before it signs. -/
+theorem c05_cert_sites :
+    upgradeSubjectChecked = true ∧
+    upgradeUserArgs.all (fun s => s.2 == "authData.Username".toList || s.2 == "authUser".toList) = true ∧
+    upgradeUserArgs.map (·.1) = upgradeSites.map (·.handler) := by
+  decide
+
+end KM.SessionCert
